@@ -14,13 +14,23 @@ UNIT = Unit(
              "exactly the statements of the respective branch — so only the selected branch is evaluated; (while) compile_while: a `while` becomes `var c bool; for { <statements evaluating the condition into c>; "
              "if !c { break }; <statements of the body> }` — the condition's statements sit INSIDE the loop, before the exit test, and the "
              "body after it, so the condition is re-evaluated before every iteration, the body runs only while it holds, nothing of either "
-             "is emitted outside the loop",
+             "is emitted outside the loop; (stores) the leaf arms of compile_aexpr_assign — a plain value, a call, a dynamic call, a `while` in value position — end with an "
+             "assignment of the TARGET variable whatever the value is, so a result variable (the loop's condition variable is one, refilled on every iteration) never keeps "
+             "the value of an earlier evaluation",
     trusted=["compile_aexpr_assign / compile_aexpr_effect (how the condition and the body are turned into statements) are stubs with "
              "uninterpreted results; go_ident is an uninterpreted function of the name",
              "PARTIAL: the `panic!` for a non-bool condition (a typing invariant) is not claimed unreachable (assume(false), listed)",
              "Vec::extend(Vec) is a shim (appends)"],
     items=types + [
         Raw(path="contracts/while.shim.rs"),
+        Raw(text="// ---- the leaf arms of compile_aexpr_assign: the value is STORED in the target (C09: a result variable — in particular a loop's condition variable — never keeps a stale value)\n"
+                 "pub struct TastIdent(pub String);\n"
+                 "pub enum CExpr { ECall { func: ImmExpr, args: Vec<ImmExpr>, ty: Ty }, EDynCall { trait_name: TastIdent, method_name: TastIdent, receiver: ImmExpr, args: Vec<ImmExpr>, ty: Ty }, Other(u8) }\n"
+                 "pub uninterp spec fn cexpr_spec(c: CExpr) -> Expr;\n"
+                 "#[verifier::external_body] pub fn compile_cexpr(goenv: &GlobalGoEnv, c: &CExpr) -> (r: Expr) ensures r == cexpr_spec(*c) { unimplemented!() }\n"
+                 "#[verifier::external_body] pub fn compile_go(goenv: &GlobalGoEnv, closure: &ImmExpr) -> (r: Stmt) ensures !(r is Assignment) || true { unimplemented!() }\n"
+                 "// the statements end with a store into the (mangled) target\n"
+                 "pub open spec fn ends_with_store(r: Seq<Stmt>, t: Seq<char>) -> bool { r.len() > 0 && (r.last() matches Stmt::Assignment { name, value: _ } && name@ == go_ident_spec(t)) }\n"),
         Fn(file=G + "compile.rs", name="compile_while", ret="r",
            rewrites=[("if cond_ty != Ty::TBool {", "if !ty_is_tbool(&cond_ty) {"),
                      (re.compile(r"panic!\((?:[^()]|\([^()]*\))*\);?"), "proof { assume(false); }", 1),
@@ -44,5 +54,23 @@ UNIT = Unit(
            sig="fn if_assign(goenv: &GlobalGoEnv, gensym: &Gensym, target: &String, cond: ImmExpr, then: Box<AExpr>, else_: Box<AExpr>) -> Vec<Stmt>",
            obligation="an `if` whose value is stored: each branch's statements (incl. the store) are inside its own block of ONE Go if statement",
            contract="ensures if_shape(r@, cond, assign_stmts(target@, *then), assign_stmts(target@, *else_)),"),
+        Fn(file=G + "compile.rs", name="compile_aexpr_assign", rename="store_simple", ret="r",
+           cut_from=re.compile(r"\| anf::CExpr::EArray \{ \.\. \}\) =>(?= vec!\[goast::Stmt::Assignment \{)"), cut_inside=True,
+           cut_before="],\n            anf::CExpr::ECall { func, args, ty } => {", cut_tail="]",
+           sig="fn store_simple(goenv: &GlobalGoEnv, target: &String, other: CExpr) -> Vec<Stmt>",
+           obligation="a value-producing expression is stored in the target, whatever the value is",
+           contract="ensures r@.len() == 1 && (r@[0] matches Stmt::Assignment { name, value } && name@ == go_ident_spec(target@) && value == cexpr_spec(other)),"),
+        Fn(file=G + "compile.rs", name="compile_aexpr_assign", rename="store_call", ret="r",
+           cut_from="anf::CExpr::ECall { func, args, ty } => {", cut_inside=True, cut_before="@block-end", cut_tail="",
+           sig="fn store_call(goenv: &GlobalGoEnv, target: &String, func: ImmExpr, args: Vec<ImmExpr>, ty: Ty) -> Vec<Stmt>",
+           obligation="the result of a call is stored in the target", contract="ensures ends_with_store(r@, target@), r@.len() == 1,"),
+        Fn(file=G + "compile.rs", name="compile_aexpr_assign", rename="store_dyncall", ret="r",
+           cut_from=re.compile(r"anf::CExpr::EDynCall \{\s*trait_name,\s*method_name,\s*receiver,\s*args,\s*ty,\s*\} => \{(?=\s*vec!\[goast::Stmt::Assignment)"), cut_inside=True, cut_before="@block-end", cut_tail="",
+           sig="fn store_dyncall(goenv: &GlobalGoEnv, target: &String, trait_name: TastIdent, method_name: TastIdent, receiver: ImmExpr, args: Vec<ImmExpr>, ty: Ty) -> Vec<Stmt>",
+           obligation="the result of a dynamic call is stored in the target", contract="ensures ends_with_store(r@, target@), r@.len() == 1,"),
+        Fn(file=G + "compile.rs", name="compile_aexpr_assign", rename="store_after_while", ret="r",
+           cut_from=re.compile(r"let mut stmts = compile_while\(goenv, gensym, \*cond, \*body\);\s*stmts\.push\(goast::Stmt::Assignment"), cut_before="@block-end", cut_tail="",
+           sig="fn store_after_while(goenv: &GlobalGoEnv, gensym: &Gensym, target: &String, cond: Box<AExpr>, body: Box<AExpr>) -> Vec<Stmt>",
+           obligation="a `while` in value position stores the unit value in the target after the loop", contract="ensures ends_with_store(r@, target@),"),
     ],
 )
